@@ -736,7 +736,8 @@ func (d MarchingCanvas) MarchOnAttribute(attribute string, cutoff float64) model
 				WeldByFloat3Attribute(attribute, weldDecimalPlaces).
 				Transform(
 					meshops.ScaleAttribute3DTransformer{
-						Amount: vector3.One[float64]().DivByConstant(d.cubesPerUnit),
+						Attribute: attribute,
+						Amount:    vector3.One[float64]().DivByConstant(d.cubesPerUnit),
 					},
 				)
 		}
@@ -761,7 +762,8 @@ func (d MarchingCanvas) MarchOnAttributeParallel(attribute string, cutoff float6
 				WeldByFloat3Attribute(attribute, weldDecimalPlaces).
 				Transform(
 					meshops.ScaleAttribute3DTransformer{
-						Amount: vector3.One[float64]().DivByConstant(d.cubesPerUnit),
+						Attribute: attribute,
+						Amount:    vector3.One[float64]().DivByConstant(d.cubesPerUnit),
 					},
 				)
 		}
